@@ -723,6 +723,11 @@ pub fn run(tier: &str, parity_odd: bool, shard: usize, nshards: usize, prop: &st
             continue;
         }
         trees += 1;
+        if rep.saturated() {
+            rep.exhaustive = false;
+            rep.caps.push("stopped after 12 distinct violations".into());
+            break;
+        }
         let mut sig = format!("{:?}", spec);
         sig.retain(|c| !c.is_ascii_digit());
         kinds.insert(sig);
